@@ -298,6 +298,13 @@ def sequential(F, ch, ctx, S, node, values, desc, wopts={}, ropts={}):
 
 def piped(F, ch, ctx, S, node, values, desc, pingpong):
     cap = ch.pick([1, 2, 7, 64, None])
+    try:
+        total = sum(len(refavro.encode(node, common.strip_hints(d, node))[0]) for d in values)
+    except Exception:  # noqa
+        total = 0
+    if cap is not None and total > 4096 * cap:
+        # byte-wise hand-over of tens of kilobytes (fixed types of 8-70 KB) would take millions of scheduler steps
+        cap = ch.pick([4096, 65536, None])
     ctx.probe("mode_pingpong" if pingpong else "mode_streaming")
     if cap == 1:
         ctx.probe("capacity_1")
